@@ -17,3 +17,10 @@ def as_bool(v):
             return v.e
         return v.e != 0
     return z3.BoolVal(bool(v))
+
+
+def foreign(spec, module):
+    """a unit borrowed from another property's contract module: verified with THAT module's callee contracts and engine hooks
+    (pyvc.runner.engine_for), reported under the borrowing property"""
+    spec.context = module
+    return spec
